@@ -36,7 +36,7 @@ SPEC = {
             'handed over and the report handed over is the signed one; it records every call. Leader: honest (the controller fake signs what it is asked '
             'for, with the keys and fields of the config it is HANDED; modes all lanes / other roots / subset / timeout / error) or Byzantine bundle '
             'with keys {current = agreed in the selecting round, removed = agreed earlier in this history, future = on chain now but not agreed, '
-            'mixed, foreign, F of them, none, signatures replayed from an accepted bundle of an earlier round (around the new lanes or verbatim)} x report '
+            'mixed, foreign, F of them, none, signatures replayed from an accepted bundle of an earlier round (around the new lanes or verbatim; in 2 of 5 building rounds in which an accepted bundle predates a move of the environment that bundle is replayed on purpose, the class label says which parts of its report / which keys are stale now)} x report '
             'fields of {agreed, an earlier agreed, on-chain} config x lanes {matching, other roots, subset}, retry flag 1 in 8, nil signature 1 in 25; '
             'replife: 60 histories of 4..12 cycles of Reports + ShouldAcceptAttestedReport on ONE commit.Plugin with F_rmn, signatures, roots, prices '
             'changing per cycle; chain: histories of 3..10 rounds of the processor chain, processors built with the real NewProcessor (real observerImpl over a '
